@@ -23,9 +23,8 @@ def Sugg.getPreEdit (env : Env) : Sugg → Nat → Res Str
     | none => .error .indexOutOfRange
   | .single s ansi, _ => if ansi then env.bijoy s else .ok s
 
-/-- what the engine sees of the two per-user files.  Parsing (`serde_json`) is outside the
-    model: a file is represented by its parse result. -/
-/-- a per-user file as the engine can see it -/
+/-- a per-user file as the engine can see it.  Parsing (`serde_json`) is outside the model: a
+    file is represented by its parse result. -/
 inductive FileState where
   | absent                 -- cannot be read at all
   | unreadable             -- present, but not a JSON object of strings (truncated, wrong shape, garbage)
@@ -37,6 +36,7 @@ def FileState.content : FileState → Store
   | .parsed st => st
   | _ => []
 
+/-- what the engine sees of the two per-user files -/
 structure FS where
   /-- learned-selections file -/
   sel : FileState := .absent
